@@ -27,7 +27,8 @@ PY_KINDS = ["python/name:", "python/module:", "python/object:", "python/object/a
 PY_TYPED = ["python/none", "python/bool", "python/str", "python/unicode", "python/bytes", "python/int", "python/long",
             "python/float", "python/complex", "python/list", "python/tuple", "python/dict"]
 TARGETS = ["os.system", "subprocess.Popen", "builtins.eval", "builtins.exec", "vh_canary.fire", "vh_canary.K",
-           "cobald.controller.linear.LinearController", "vh_canary_unimported", "os"]
+           "cobald.controller.linear.LinearController", "vh_canary_unimported", "os",
+           "vh_canary_pkg.sub.mod.run", "vh_canary_pkg.sub.mod", "vh_canary_pkg.sub", "xml.dom.minidom.parseString"]
 
 CANARY = '''
 import os
@@ -94,7 +95,10 @@ for case in json.load(open(sys.argv[1])):
             res["yaml"] = "error:" + type(e).__name__
     finally:
         builtins.eval, builtins.exec = _eval, _exec
-    res["unimported_loaded"] = "vh_canary_unimported" in sys.modules
+    imported = sorted(m for m in sys.modules if m.startswith(("vh_canary_unimported", "vh_canary_pkg", "xml.dom")))
+    res["unimported_loaded"] = imported
+    for m in imported:        # so that the next document is judged on its own
+        del sys.modules[m]
     out.append(res)
 def _kind(fn):
     return "%s.%s" % (getattr(fn, "__module__", "?"), getattr(fn, "__qualname__", "?"))
@@ -126,7 +130,8 @@ def gen_doc(rng):
         val = value_for(rng.choice(PY_TYPED), "", rng)
         bad = "python"
     elif r < 0.86:
-        val = rng.choice(["!Unregistered {a: 1}", "!foo [1]", "!LinearControllerX", "!vh_canary.K {}", "!!python [1]"])
+        val = rng.choice(["!Unregistered {a: 1}", "!foo [1]", "!LinearControllerX", "!vh_canary.K {}", "!!python [1]",
+                          "!vh_canary_pkg.sub.mod.K {}", "!vh_canary_pkg.sub.mod.run [1]", "!xml.dom.minidom.Document {}"])
         bad = "unregistered"
     else:
         val = rng.choice(["1", "[1, 2]", "{a: b}", '"text"', "2001-12-14", "!!set {a, b}", "!!binary aGVsbG8="])
@@ -187,6 +192,11 @@ def run(ctx):
     try:
         open(os.path.join(tmp, "vh_canary.py"), "w").write(CANARY)
         open(os.path.join(tmp, "vh_canary_unimported.py"), "w").write(CANARY2)
+        # a package several levels deep, none of it imported: naming something inside it must not import its parents
+        for sub, what in (("vh_canary_pkg", "package"), ("vh_canary_pkg/sub", "subpackage")):
+            os.makedirs(os.path.join(tmp, sub))
+            open(os.path.join(tmp, sub, "__init__.py"), "w").write(CANARY2.replace("unimported-module-imported", what + "-imported"))
+        open(os.path.join(tmp, "vh_canary_pkg/sub/mod.py"), "w").write(CANARY2.replace("unimported-module-imported", "deep-module-imported") + "def run(*a, **k):\n    pass\nclass K:\n    pass\n")
         marker = os.path.join(tmp, "marker.txt")
         open(marker, "w").close()
         cases = []
@@ -232,13 +242,13 @@ def run(ctx):
             if d["bad"] and not impl_err:
                 ctx.violation("dangerous-document-accepted", "document using a %s tag at %s was not rejected: %r -> %r" % (d["bad"], d["pos"], d["text"], r), d)
             if r.get("unimported_loaded"):
-                ctx.violation("module-imported", "loading imported a module named by the document: %r" % d["text"], d)
+                ctx.violation("module-imported", "loading imported %r, named by the document: %r" % (r["unimported_loaded"], d["text"]), d)
             r2 = res2[i]
             ctx.count("documents-without-libyaml", d["text"], d["bad"] is not None)
             if d["bad"] and not (r2["load"].startswith("error") and r2["yaml"].startswith("error")):
                 ctx.violation("dangerous-document-accepted-without-libyaml", "without PyYAML's C extension, a document using a %s tag at %s was not rejected: %r -> %r" % (d["bad"], d["pos"], d["text"], r2), d)
             if r2.get("unimported_loaded"):
-                ctx.violation("module-imported", "loading imported a module named by the document: %r" % d["text"], d)
+                ctx.violation("module-imported", "loading imported %r, named by the document: %r" % (r2["unimported_loaded"], d["text"]), d)
             m = model.get(i)
             if m is not None and "driver_error" not in m:
                 mv = "error" if m["result"] == "error" else "ok"
